@@ -486,7 +486,7 @@ class TLSConnection(TLSRecordLayer):
         if not settings:
             settings = HandshakeSettings()
         settings = settings.validate()
-        self.sock.padding_cb = settings.padding_cb
+        self._recordLayer.padding_cb = settings.padding_cb
 
         if clientCertChain:
             if not isinstance(clientCertChain, X509CertChain):
@@ -2474,7 +2474,7 @@ class TLSConnection(TLSRecordLayer):
         if alpn is not None and not alpn:
             raise ValueError("Empty list of ALPN protocols")
 
-        self.sock.padding_cb = settings.padding_cb
+        self._recordLayer.padding_cb = settings.padding_cb
 
         # OK Start exchanging messages
         # ******************************
